@@ -299,23 +299,32 @@ class PythonTranslator(ASTTranslator):
     def postName(translator, node):
         node.priority = 1
         return node.id
-    def fstring_body(self, node):
-        # the text between the quotes: literal braces are doubled, conversions and format specs are kept
+    def fstring_body(self, node, quote=None):
+        # the text between the quotes: literal braces are doubled, conversions and format specs are kept.
+        # With `quote` given, the literal parts are escaped for a string delimited by it; the source of the replacement fields
+        # is code and is left exactly as it is (its own string literals are escaped already)
         result = []
         for item in node.values:
             if isinstance(item, ast.Constant):
                 assert isinstance(item.value, str)
-                result.append(item.value.replace('{', '{{').replace('}', '}}'))
+                text = item.value.replace('{', '{{').replace('}', '}}')
+                if quote is not None:
+                    text = text.encode('unicode_escape').decode('ascii').replace(quote[0], '\\' + quote[0])
+                result.append(text)
             elif isinstance(item, ast.FormattedValue):
                 src = item.value.src
                 if item.conversion != -1: src += '!' + chr(item.conversion)
-                if item.format_spec is not None: src += ':' + self.fstring_body(item.format_spec)
+                if item.format_spec is not None: src += ':' + self.fstring_body(item.format_spec, quote)
                 result.append('{%s}' % src)
             else:
                 assert False
         return ''.join(result)
     def postJoinedStr(self, node):
-        return "f%r" % self.fstring_body(node)
+        fields = self.fstring_body(ast.JoinedStr(values=[item for item in ast.walk(node) if isinstance(item, ast.FormattedValue)]))
+        for quote in ("'", '"', "'''", '"""'):
+            if quote not in fields:  # a delimiter that the code inside the replacement fields does not use
+                return 'f' + quote + self.fstring_body(node, quote) + quote
+        throw(NotImplementedError, 'f-string whose replacement fields use every kind of quote')
     def postFormattedValue(self, node):
         return node.value.src
 
